@@ -574,9 +574,9 @@ fn known_class(p: &crate::ast::Program) -> Option<&'static str> {
     fn block(b: &Block, found: &mut Option<&'static str>) {
         if let Some(g) = &b.group {
             for c in &g.choices {
-                if has_seq(&c.start) || (c.bracket.is_none() && has_seq(&c.end)) {
-                    found.get_or_insert("known-class:choice-start-sequence");
-                }
+                // (no class is listed at present; the mechanism stays for the next finding that is
+                // recorded rather than repaired)
+                let _ = (has_seq(&c.start), &mut *found);
                 block(&c.body, found);
             }
             if let Some((_, rest)) = &g.gather {
